@@ -221,7 +221,10 @@ def run_jobs(ctx, modname, jobs, procs=None):
         res = [_run_job(s) for s in specs]
     else:
         import multiprocessing as mp
-        with mp.get_context('fork').Pool(min(procs, len(specs))) as pool:
+        # one forked child per job: a job always starts from the parent's (pristine) interpreter state, so state that the
+        # library keeps at module or class level cannot leak from one job into the next and results do not depend on
+        # which worker happened to run which job
+        with mp.get_context('fork').Pool(min(procs, len(specs)), maxtasksperchild=1) as pool:
             res = pool.map(_run_job, specs, chunksize=1)
     # a job that crashed (an exception escaped the job body) is executed once more, serially, in this process: a
     # transient failure of the harness under load is absorbed (and counted), a deterministic crash is reported as before
@@ -239,6 +242,36 @@ def run_jobs(ctx, modname, jobs, procs=None):
 def rerun_job(pid, tier, seed, job):
     modname, fname, args = job
     return _run_job((pid, tier, seed, modname, fname, tuple(args)))
+
+
+def in_fresh_child(fn, *args):
+    """Run fn(*args) in a forked child of the CURRENT process and return its (picklable) result.  Used for solo baselines:
+    the child sees the library state as it is now and nothing it does leaks back."""
+    import pickle
+    r, w = os.pipe()
+    pid = os.fork()
+    if pid == 0:
+        code = 0
+        try:
+            os.close(r)
+            try:
+                payload = pickle.dumps(('ok', fn(*args)))
+            except Exception as ex:
+                payload = pickle.dumps(('err', f'{type(ex).__name__}: {ex}'))
+            with os.fdopen(w, 'wb') as f:
+                f.write(payload)
+        except BaseException:
+            code = 1
+        finally:
+            os._exit(code)
+    os.close(w)
+    with os.fdopen(r, 'rb') as f:
+        data = f.read()
+    os.waitpid(pid, 0)
+    kind, val = pickle.loads(data)
+    if kind == 'err':
+        raise RuntimeError('child failed: ' + val)
+    return val
 
 
 def chunks(seq, n):
